@@ -80,8 +80,8 @@ def extra(report, env):
                     continue
                 fails.append({'formula': text.replace('va', repr(x)), 'detail': 'identity: expected %r got %r' % (want, r)})
     # ATAN2: the angle of the point (x, y); #DIV/0! only at the origin
-    for x in (-2.0, -1, 0, 0.5, 3):
-        for y in (-2.0, -1, 0, 0.5, 3):
+    for x in (-2.0, -1, 0, 0.5, 3, 1e-200, -3e-170, 1e-300, 1e200):
+        for y in (-2.0, -1, 0, 0.5, 3, 1e-200, -1e-250, 1e200):
             p.set_variable('va', x)
             p.set_variable('vb', y)
             cases += 1
@@ -126,7 +126,7 @@ def extra(report, env):
         if not (isinstance(r['result'], int) and a <= r['result'] <= b) and len(fails) < 5:
             fails.append({'formula': 'RANDBETWEEN(%d,%d)' % (a, b), 'detail': 'got %r' % (r,)})
     bounded(report, 'C16.grid', '22 functions x ~110 reals over 24 orders of magnitude (value inside the domain, error outside), numeric text / logical / '
-            'non-numeric text arguments, 9 identities, ATAN2 on a 5x5 grid, seeded PV equations, RAND/RANDBETWEEN', cases, fails)
+            'non-numeric text arguments, 9 identities, ATAN2 on a 9x8 grid incl. magnitudes 1e-300..1e200, seeded PV equations, RAND/RANDBETWEEN', cases, fails)
 
 
 def replay(rp):
